@@ -562,6 +562,296 @@ theorem ipVersion_v4 (a b c d : Nat) (ha : a < 256) (hb : b < 256) (hc : c < 256
     exact absurd heq.1 hbr
   · simp only [hhost, isV4_quad a b c d ha hb hc hd, if_true]
 
+/-! #### bracketed IPv6 literals -/
+
+/-- `g1:g2:…:gk` -/
+def joinColon : List (List Char) → List Char
+  | [] => []
+  | [g] => g
+  | g :: g' :: r => g ++ ':' :: joinColon (g' :: r)
+
+theorem hextet_props (g : List Char) (h : hextetOk g = true) :
+    g ≠ [] ∧ g.isEmpty = false ∧ (∀ c ∈ g, isHex c = true) := by
+  simp only [hextetOk, Bool.and_eq_true, Bool.not_eq_true', decide_eq_true_eq, List.all_eq_true] at h
+  exact ⟨by intro e; simp [e] at h, h.1.1, h.2⟩
+
+theorem hex_ne (c x : Char) (hc : isHex c = true) (hx : isHex x = false) : c ≠ x := by
+  intro e; rw [e, hx] at hc; cases hc
+
+theorem splitOnC_join (gs : List (List Char)) (hne : gs ≠ []) (hg : ∀ g ∈ gs, ∀ c ∈ g, c ≠ ':') :
+    splitOnC ':' (joinColon gs) = gs := by
+  induction gs with
+  | nil => exact absurd rfl hne
+  | cons g r ih =>
+    cases r with
+    | nil => simp only [joinColon]; exact splitOnC_nosep ':' g (hg g List.mem_cons_self)
+    | cons g' r' =>
+      simp only [joinColon]
+      rw [splitOnC_sep ':' g _ (hg g List.mem_cons_self),
+        ih (by simp) (fun x hx => hg x (List.mem_cons_of_mem _ hx))]
+
+theorem splitOnC_join_append (gs : List (List Char)) (y : List Char) (hne : gs ≠ [])
+    (hg : ∀ g ∈ gs, ∀ c ∈ g, c ≠ ':') :
+    splitOnC ':' (joinColon gs ++ ':' :: y) = gs ++ splitOnC ':' y := by
+  induction gs with
+  | nil => exact absurd rfl hne
+  | cons g r ih =>
+    cases r with
+    | nil => simp only [joinColon, List.cons_append, List.nil_append]; exact splitOnC_sep ':' g y (hg g List.mem_cons_self)
+    | cons g' r' =>
+      simp only [joinColon, List.append_assoc, List.cons_append]
+      rw [splitOnC_sep ':' g _ (hg g List.mem_cons_self),
+        ih (by simp) (fun x hx => hg x (List.mem_cons_of_mem _ hx))]
+      simp
+
+theorem joinColon_chars (gs : List (List Char)) (hg : ∀ g ∈ gs, ∀ c ∈ g, isHex c = true) :
+    ∀ c ∈ joinColon gs, isHex c = true ∨ c = ':' := by
+  induction gs with
+  | nil => intro c hc; simp [joinColon] at hc
+  | cons g r ih =>
+    cases r with
+    | nil => intro c hc; exact Or.inl (hg g List.mem_cons_self c (by simpa [joinColon] using hc))
+    | cons g' r' =>
+      intro c hc
+      simp only [joinColon, List.mem_append, List.mem_cons] at hc
+      rcases hc with h | rfl | h
+      · exact Or.inl (hg g List.mem_cons_self c h)
+      · exact Or.inr rfl
+      · exact ih (fun x hx => hg x (List.mem_cons_of_mem _ hx)) c h
+
+theorem filter_empty_hextets (L : List (List Char)) (hL : ∀ g ∈ L, hextetOk g = true) :
+    L.filter (·.isEmpty) = [] := by
+  rw [List.filter_eq_nil_iff]
+  intro g hg
+  simp [(hextet_props g (hL g hg)).2.1]
+
+/-- the compressed form `L::R` (both sides non-empty, at most 7 hextets in all) is accepted -/
+theorem v6PartsOk_compressed (L R : List (List Char)) (hL : ∀ g ∈ L, hextetOk g = true) (hR : ∀ g ∈ R, hextetOk g = true)
+    (hLn : L ≠ []) (hRn : R ≠ []) (hlen : L.length + R.length ≤ 7) :
+    v6PartsOk (L ++ [] :: R) = true := by
+  obtain ⟨l0, L', rfl⟩ : ∃ l0 L', L = l0 :: L' := by cases L with
+    | nil => exact absurd rfl hLn
+    | cons a b => exact ⟨a, b, rfl⟩
+  obtain ⟨rl, hrl⟩ : ∃ rl, R.getLast? = some rl := by
+    cases h : R.getLast? with
+    | none => simp [List.getLast?_eq_none_iff] at h; exact absurd h hRn
+    | some x => exact ⟨x, rfl⟩
+  have hrlm : rl ∈ R := List.mem_of_getLast? hrl
+  have hl0 := (hextet_props l0 (hL l0 List.mem_cons_self)).2.1
+  have hrle := (hextet_props rl (hR rl hrlm)).2.1
+  have hfL := filter_empty_hextets (l0 :: L') hL
+  have hfR := filter_empty_hextets R hR
+  have hlast : ((l0 :: L') ++ [] :: R).getLast? = some rl := by
+    rw [List.getLast?_append, show ([] :: R : List (List Char)).getLast? = some rl by
+      rw [List.getLast?_cons]; simp [hrl]]
+    simp
+  have hall : ((l0 :: L') ++ [] :: R).all (fun g => g.isEmpty || hextetOk g) = true := by
+    rw [List.all_eq_true]
+    intro g hg
+    rcases List.mem_append.mp hg with h | h
+    · simp [hL g h]
+    · rcases List.mem_cons.mp h with rfl | h
+      · simp
+      · simp [hR g h]
+  have hfL' : L'.filter (·.isEmpty) = [] := filter_empty_hextets L' (fun g hg => hL g (List.mem_cons_of_mem _ hg))
+  have hlast' : (l0 :: (L' ++ [] :: R)).getLast? = some rl := by simpa using hlast
+  have hall' : (l0 :: (L' ++ [] :: R)).all (fun g => g.isEmpty || hextetOk g) = true := by simpa using hall
+  unfold v6PartsOk
+  simp only [List.cons_append, hlast', hall', List.filter_cons, hl0, List.filter_append, hfL', hfR,
+    List.isEmpty_nil, if_true, List.head?_cons, hrle, List.length_append, List.length_cons, List.length_nil]
+  simp only [List.length_append, List.length_cons, List.length_nil] at hlen
+  simp
+  have hRpos : 0 < R.length := List.length_pos_iff.mpr hRn
+  omega
+
+/-- the full form `g1:…:g8` is accepted -/
+theorem v6PartsOk_full (gs : List (List Char)) (hg : ∀ g ∈ gs, hextetOk g = true) (hlen : gs.length = 8) :
+    v6PartsOk gs = true := by
+  obtain ⟨g0, r, rfl⟩ : ∃ g0 r, gs = g0 :: r := by cases gs with
+    | nil => simp at hlen
+    | cons a b => exact ⟨a, b, rfl⟩
+  obtain ⟨gl, hgl⟩ : ∃ gl, (g0 :: r).getLast? = some gl := by
+    cases h : (g0 :: r).getLast? with
+    | none => simp [List.getLast?_eq_none_iff] at h
+    | some x => exact ⟨x, rfl⟩
+  have hglm : gl ∈ g0 :: r := List.mem_of_getLast? hgl
+  have h0 := (hextet_props g0 (hg g0 List.mem_cons_self)).2.1
+  have hle := (hextet_props gl (hg gl hglm)).2.1
+  have hf := filter_empty_hextets (g0 :: r) hg
+  have hall : (g0 :: r).all (fun g => g.isEmpty || hextetOk g) = true := by
+    rw [List.all_eq_true]; intro g hgm; simp [hg g hgm]
+  unfold v6PartsOk
+  simp only [hgl, hall, hf, List.head?_cons, h0, hle, hlen]
+  simp
+
+/-- **ip_version_from_location on bracketed IPv6 URLs**: `http://[addr]`, `http://[addr%zone]` (numeric zone, as
+    `get_adjusted_url` writes it), optional `:port`, optional `/path` — version 6 whenever `ip_address` accepts `addr`
+    (`v6PartsOk` of its `:`-separated parts; `addr` consists of hex digits and colons) -/
+theorem ipVersion_v6_of_parts (addr : List Char) (haddr : ∀ c ∈ addr, isHex c = true ∨ c = ':')
+    (hok : v6PartsOk (splitOnC ':' addr) = true)
+    (zone port : Option Nat) (path : Option (List Char)) :
+    ipVersion (String.ofList ("http://".toList ++ ('[' :: (addr ++
+      ((match zone with
+        | some z => '%' :: dec z
+        | none => []) ++ (']' ::
+      ((match port with
+        | some p => ':' :: dec p
+        | none => []) ++
+       (match path with
+        | some p => '/' :: p
+        | none => [])))))))) = some 6 := by
+  have hscheme : "http://".toList = ['h', 't', 't', 'p', ':', '/', '/'] := by decide
+  unfold ipVersion
+  simp only [String.toList_ofList, hscheme, List.cons_append, List.nil_append, afterScheme]
+  let zp : List Char := match zone with
+    | some z => '%' :: dec z
+    | none => []
+  let pp : List Char := match port with
+    | some p => ':' :: dec p
+    | none => []
+  -- characters
+  have hA : ∀ y ∈ addr, (!(y == '/' || y == '?' || y == '#')) = true ∧ y ≠ '@' ∧ y ≠ ']' ∧ y ≠ '%' := by
+    intro y hy
+    rcases haddr y hy with h | rfl
+    · have h1 := hex_ne y '/' h (by decide)
+      have h2 := hex_ne y '?' h (by decide)
+      have h3 := hex_ne y '#' h (by decide)
+      exact ⟨by simp [h1, h2, h3], hex_ne y '@' h (by decide), hex_ne y ']' h (by decide), hex_ne y '%' h (by decide)⟩
+    · exact ⟨by decide, by decide, by decide, by decide⟩
+  have hD : ∀ n : Nat, ∀ y ∈ dec n, (!(y == '/' || y == '?' || y == '#')) = true ∧ y ≠ '@' ∧ y ≠ ']' ∧ y ≠ '%' := by
+    intro n y hy
+    have h1 := dec_no n '/' (by decide) y hy
+    have h2 := dec_no n '?' (by decide) y hy
+    have h3 := dec_no n '#' (by decide) y hy
+    exact ⟨by simp [h1, h2, h3], dec_no n '@' (by decide) y hy, dec_no n ']' (by decide) y hy,
+      dec_no n '%' (by decide) y hy⟩
+  have hZ : ∀ y ∈ zp, (!(y == '/' || y == '?' || y == '#')) = true ∧ y ≠ '@' ∧ y ≠ ']' := by
+    intro y hy
+    cases zone with
+    | none => simp [zp] at hy
+    | some z =>
+      simp only [zp, List.mem_cons] at hy
+      rcases hy with rfl | hy
+      · exact ⟨by decide, by decide, by decide⟩
+      · exact ⟨(hD z y hy).1, (hD z y hy).2.1, (hD z y hy).2.2.1⟩
+  have hP : ∀ y ∈ pp, (!(y == '/' || y == '?' || y == '#')) = true ∧ y ≠ '@' := by
+    intro y hy
+    cases port with
+    | none => simp [pp] at hy
+    | some p =>
+      simp only [pp, List.mem_cons] at hy
+      rcases hy with rfl | hy
+      · exact ⟨by decide, by decide⟩
+      · exact ⟨(hD p y hy).1, (hD p y hy).2.1⟩
+  -- netloc
+  have hnetmem : ∀ y ∈ '[' :: (addr ++ (zp ++ ']' :: pp)), (!(y == '/' || y == '?' || y == '#')) = true ∧ y ≠ '@' := by
+    intro y hy
+    simp only [List.mem_cons, List.mem_append] at hy
+    rcases hy with rfl | h | h | rfl | h
+    · exact ⟨by decide, by decide⟩
+    · exact ⟨(hA y h).1, (hA y h).2.1⟩
+    · exact ⟨(hZ y h).1, (hZ y h).2.1⟩
+    · exact ⟨by decide, by decide⟩
+    · exact hP y h
+  have hnet : List.takeWhile (fun c => !(c == '/' || c == '?' || c == '#'))
+      ('[' :: (addr ++ (zp ++ ']' :: (pp ++ (match path with
+        | some p => '/' :: p
+        | none => []))))) = '[' :: (addr ++ (zp ++ ']' :: pp)) := by
+    have e : '[' :: (addr ++ (zp ++ ']' :: (pp ++ (match path with
+        | some p => '/' :: p
+        | none => [])))) = ('[' :: (addr ++ (zp ++ ']' :: pp))) ++ (match path with
+        | some p => '/' :: p
+        | none => []) := by simp
+    rw [e, takeWhile_all_append _ _ _ (fun y hy => (hnetmem y hy).1)]
+    cases path <;> simp
+  show (match afterLastAt (List.takeWhile _ ('[' :: (addr ++ (zp ++ ']' :: (pp ++ _))))) with
+    | '[' :: r6 => _
+    | _ => _) = some 6
+  rw [hnet]
+  have hat : afterLastAt ('[' :: (addr ++ (zp ++ ']' :: pp))) = '[' :: (addr ++ (zp ++ ']' :: pp)) := by
+    unfold afterLastAt
+    rw [splitOnC_nosep '@' _ (fun y hy => (hnetmem y hy).2)]
+    rfl
+  rw [hat]
+  simp only
+  -- host between the brackets
+  have hhost : List.takeWhile (fun x => x != ']') (addr ++ (zp ++ ']' :: pp)) = addr ++ zp := by
+    rw [← List.append_assoc, takeWhile_all_append _ (addr ++ zp)]
+    · simp
+    · intro y hy
+      rcases List.mem_append.mp hy with h | h
+      · simpa using (hA y h).2.2.1
+      · simpa using (hZ y h).2.2
+  rw [hhost]
+  -- `ip_address`
+  have hv6 : isV6 (addr ++ zp) = true := by
+    unfold isV6
+    cases zone with
+    | none =>
+      simp only [zp, List.append_nil]
+      rw [splitOnC_nosep '%' addr (fun y hy => (hA y hy).2.2.2)]
+      exact hok
+    | some z =>
+      simp only [zp]
+      rw [splitOnC_sep '%' addr (dec z) (fun y hy => (hA y hy).2.2.2),
+        splitOnC_nosep '%' (dec z) (fun y hy => (hD z y hy).2.2.2)]
+      simp only [hok, Bool.and_true, Bool.not_eq_true']
+      cases h : dec z with
+      | nil => exact absurd h (dec_ne_nil z)
+      | cons a b => rfl
+  simp [hv6]
+
+/-- … for the compressed form `g1:…:gi::h1:…:hj` (both sides non-empty, at most 7 hextets) -/
+theorem ipVersion_v6 (L R : List (List Char)) (hL : ∀ g ∈ L, hextetOk g = true) (hR : ∀ g ∈ R, hextetOk g = true)
+    (hLn : L ≠ []) (hRn : R ≠ []) (hlen : L.length + R.length ≤ 7)
+    (zone port : Option Nat) (path : Option (List Char)) :
+    ipVersion (String.ofList ("http://".toList ++ ('[' :: ((joinColon L ++ ':' :: ':' :: joinColon R) ++
+      ((match zone with
+        | some z => '%' :: dec z
+        | none => []) ++ (']' ::
+      ((match port with
+        | some p => ':' :: dec p
+        | none => []) ++
+       (match path with
+        | some p => '/' :: p
+        | none => [])))))))) = some 6 := by
+  have hcL : ∀ g ∈ L, ∀ c ∈ g, c ≠ ':' := fun g hg c hc =>
+    hex_ne c ':' ((hextet_props g (hL g hg)).2.2 c hc) (by decide)
+  have hcR : ∀ g ∈ R, ∀ c ∈ g, c ≠ ':' := fun g hg c hc =>
+    hex_ne c ':' ((hextet_props g (hR g hg)).2.2 c hc) (by decide)
+  apply ipVersion_v6_of_parts
+  · intro c hc
+    simp only [List.mem_append, List.mem_cons] at hc
+    rcases hc with h | rfl | rfl | h
+    · exact joinColon_chars L (fun g hg => (hextet_props g (hL g hg)).2.2) c h
+    · exact Or.inr rfl
+    · exact Or.inr rfl
+    · exact joinColon_chars R (fun g hg => (hextet_props g (hR g hg)).2.2) c h
+  · have hsep := splitOnC_sep ':' [] (joinColon R) (by simp)
+    simp only [List.nil_append] at hsep
+    rw [splitOnC_join_append L _ hLn hcL, hsep, splitOnC_join R hRn hcR]
+    exact v6PartsOk_compressed L R hL hR hLn hRn hlen
+
+/-- … and for the full form `g1:…:g8` -/
+theorem ipVersion_v6_full (gs : List (List Char)) (hg : ∀ g ∈ gs, hextetOk g = true) (hlen : gs.length = 8)
+    (zone port : Option Nat) (path : Option (List Char)) :
+    ipVersion (String.ofList ("http://".toList ++ ('[' :: (joinColon gs ++
+      ((match zone with
+        | some z => '%' :: dec z
+        | none => []) ++ (']' ::
+      ((match port with
+        | some p => ':' :: dec p
+        | none => []) ++
+       (match path with
+        | some p => '/' :: p
+        | none => [])))))))) = some 6 := by
+  have hc : ∀ g ∈ gs, ∀ c ∈ g, c ≠ ':' := fun g hgm c hcm =>
+    hex_ne c ':' ((hextet_props g (hg g hgm)).2.2 c hcm) (by decide)
+  have hne : gs ≠ [] := by intro e; simp [e] at hlen
+  apply ipVersion_v6_of_parts
+  · exact joinColon_chars gs (fun g hgm => (hextet_props g (hg g hgm)).2.2)
+  · rw [splitOnC_join gs hne hc]; exact v6PartsOk_full gs hg hlen
+
 /-- sanity pins for the URL grammar of the generator (samples, not a universal claim) -/
 example : ipVersion "http://192.168.1.10:80/desc.xml" = some 4 ∧ ipVersion "http://[2001:db8::10]:80/desc.xml" = some 6 ∧
     ipVersion "http://[fe80::1%3]:80/desc.xml" = some 6 ∧ ipVersion "https://tv.example:443/d" = none ∧
